@@ -523,6 +523,17 @@ impl<'a> VisitMut for Norm<'a> {
             Expr::If(i) => {
                 self.rewrite_if(i);
             }
+            Expr::MethodCall(mc) if mc.method == "or_else" && mc.args.len() == 1
+                && matches!(mc.args.first(), Some(Expr::Closure(c)) if c.inputs.is_empty() && c.asyncness.is_none()) =>
+            {
+                // R-ORELSE: `X.or_else(|| F)` -> `match X { Some(v) => Some(v), None => F }` (the definition of
+                // Option::or_else; a zero-parameter closure only fits Option's). Verus has no closures capturing `&mut`.
+                let recv = (*mc.receiver).clone();
+                let Some(Expr::Closure(c)) = mc.args.first() else { unreachable!() };
+                let body = (*c.body).clone();
+                *e = parse_quote!(match #recv { Some(__vx_some) => Some(__vx_some), None => #body, });
+                self.bump("R-ORELSE");
+            }
             Expr::MethodCall(mc) => {
                 // R-MAP: map.retain(|_, v| BODY) -> map.vx_retain_values(|v| BODY)
                 if mc.method == "retain" && mc.args.len() == 1 {
